@@ -233,6 +233,15 @@ def pqueryShard (c : PClient) (st : PStreams) (ident : String) (size : Int) : Li
     let ids := pshard c.parts (st ident) size 0 0
     (ids, { c with cache := setAssoc k ids c.cache })
 
+/-- a shard of a shard: `ring.ShuffleShard(a, n)` and then `ShuffleShard(b, m)` / `ShuffleShardWithLookback`
+on the returned sub-ring. The sub-ring is a `PartitionRing` built from the selected partitions with a
+shuffle-shard cache of its own (`NewPartitionRingWithOptions`), so only the first query touches the
+client's cache. -/
+def pnested (c : PClient) (st : PStreams) (a : String) (n : Int) (b : String) (m period now : Int) : List Int × PClient :=
+  let r := pqueryShard c st a n
+  let sub := c.parts.filter fun p => r.1.contains p.id
+  (pshard sub (st b) m period now, r.2)
+
 def pvalidBefore (ps : List Part) (ids : List Int) (w : Int) : Int :=
   (ps.filter fun p => ids.contains p.id).foldl (fun b p => if p.stateTs ≥ w && p.stateTs < b then p.stateTs else b) C12.maxInt
 
